@@ -133,3 +133,11 @@ func VerifUnmarshalFrame(frame []byte) (map[string]string, []byte, error) {
 func VerifAddHeadersToFrame(frame []byte, headers map[string]string) ([]byte, error) {
 	return addHeadersToFrame(frame, headers)
 }
+
+// VerifSetNextOpID moves the process-wide op id counter to v, so that a
+// monitor can look at the ids handed out after a long history (2^16, 2^31,
+// 2^32, 2^53, ... allocations) without performing it. Call it only while no
+// FContext is being created. Written for any unsigned counter width.
+func VerifSetNextOpID(v uint64) { verifSetCounter(&nextOpID, v) }
+
+func verifSetCounter[T ~uint32 | ~uint64 | ~uint](p *T, v uint64) { *p = T(v) }
